@@ -12,7 +12,8 @@
   * `c13_blank_passed` / `c13_token_emitted` — the two local steps of the scanner the first theorem is made of: at a
                                     non-empty blank run where no name list starts nothing is emitted, where the
                                     alternation matches a token it is emitted and the scan continues behind it.
-  * `c13_comment_block_is_newlines`, `c13_comment_line_is_nothing` — composing with the comment scanner (Proofs/C13.lean):
+  * `c13_comment_block_is_newlines`, `c13_comment_line_is_nothing` (`c13_comment_line_crlf_is_nothing`: the same for a line
+                                    comment closed by CR LF, fix F73) — composing with the comment scanner (Proofs/C13.lean):
                                     a block comment at a point where the comment scanner is between lexical items parses
                                     like what the scanner puts in its place (`commentRepl`: its newlines; ONE BLANK when it has
                                     none and stands directly between two characters that are no white space; else nothing), a
@@ -208,6 +209,17 @@ theorem c13_comment_line_is_nothing (a o body b : List Char) (h : Closed none a 
   rw [Parser.C13.c13_comment_line none a o body b h hb,
     Parser.C13.c13_strip_append none a o _ (closed_next none a _ _ o h hl),
     Parser.C13.c13_strip_prev (some '/') (lastOr none a) ('\n' :: b) (by intro r e; cases e)]
+
+/-- **A line comment on a CRLF-terminated line parses like nothing, together with its carriage return (its newline stays)** — fix
+    F73; side condition as above: the text in front does not end with `/`. -/
+theorem c13_comment_line_crlf_is_nothing (a o body b : List Char) (h : Closed none a (some '/') o)
+    (hb : ∀ c ∈ body, isEol c = false) (hl : lastOr none a ≠ some '/') :
+    parseDecls (a ++ ('/' :: '/' :: body ++ '\r' :: '\n' :: b)) = parseDecls (a ++ '\n' :: b) := by
+  rw [parseDecls_eq, parseDecls_eq]
+  show parseToks (scan (stripFrom none _)) = parseToks (scan (stripFrom none _))
+  rw [Parser.C13.c13_comment_line_crlf none a o body b h hb,
+    Parser.C13.c13_strip_append none a o _ (closed_next none a _ _ o h hl),
+    Parser.C13.c13_strip_prev (some '\r') (lastOr none a) ('\n' :: b) (by intro r e; cases e)]
 
 /-- THE "ignores comments" CLAUSE, first half — by the scanner rule itself: a block comment without line break that stands directly
     between two characters that are neither white space nor `/` is the same as ONE BLANK, for the comment-stripped text and hence
@@ -500,6 +512,7 @@ end Cstruct.DefParser.C13
 #print axioms Cstruct.DefParser.C13.c13_parse_layout_independent
 #print axioms Cstruct.DefParser.C13.c13_comment_block_is_newlines
 #print axioms Cstruct.DefParser.C13.c13_comment_line_is_nothing
+#print axioms Cstruct.DefParser.C13.c13_comment_line_crlf_is_nothing
 #print axioms Cstruct.DefParser.C13.c13_comment_is_blank
 #print axioms Cstruct.DefParser.C13.c13_comment_separates
 #print axioms Cstruct.DefParser.C13.c13_declarator_of_lexeme
